@@ -34,6 +34,14 @@ def filter_kinds(ctx: Ctx, fi: FuncInfo, expr: ast.AST, node: Node, depth: int =
     for g in walk_no_nested(expr):
         if isinstance(g, ast.comprehension) and isinstance(g.target, ast.Name):
             comp_bind[g.target.id] = g.iter
+    # a flag computed earlier from the size limit (`too_big = ... st_size > files_max_size ...; if too_big: continue`)
+    for x in walk_no_nested(expr):
+        if isinstance(x, ast.Name) and isinstance(x.ctx, ast.Load) and depth == 0:
+            defs = prog.flow(fi).reaching(node, x.id)
+            if defs and all(d.kind == "assign" for d in defs):
+                sl0 = prog.slice(fi, x, node, control=True)
+                if any(a.endswith("files_max_size") for a in sl0.attrs()) and any(op == ".st_size" or "st_size" in str(op) for op, _ in sl0.ops):
+                    kinds.add("size")
     for c in walk_no_nested(expr):
         if not isinstance(c, ast.Call):
             continue
@@ -62,10 +70,11 @@ def filter_kinds(ctx: Ctx, fi: FuncInfo, expr: ast.AST, node: Node, depth: int =
                         found = True
                     if any("_get_gitignore" in n or "load_gitignore" in n for n in names) or any(
                         p == "gitignore_specs" for p in sl.params()
-                    ):
+                    ) or any(a.endswith("._gitignore_cache") for a in sl.attrs()):
                         kinds.add("gitignore")
                         found = True
-                    if any("_get_tool_ignore" in n or "load_tool_ignore" in n for n in names) or "tool_ignore" in sl.params():
+                    if any("_get_tool_ignore" in n or "load_tool_ignore" in n for n in names) or "tool_ignore" in sl.params() \
+                            or any(a.endswith("._tool_ignore_cache") for a in sl.attrs()):
                         kinds.add("toolignore")
                         found = True
                     if any(a.endswith("._exclude_spec") for a in sl.attrs()):
@@ -552,6 +561,16 @@ def check_walk_is_per_directory(ctx: Ctx) -> None:
     ctx.require("R-GITIGNORE", "os.walk loop of the directory traversal", len(loops), 1)
     for h in loops:
         carried, allowed = unexpected_carried(prog, walk, h)
+        # memo tables of the resolver object (self._x_cache[key] = value): keyed by directory, their consistency is the
+        # business of R-RESOLVE-cache
+        selfname = walk.params[0] if walk.params else "self"
+        body = flow.loop_body_nodes(h)
+        for v in carried:
+            if v.startswith(selfname + "."):
+                defs_in_body = [d for n in body for d in flow.defs_at[n] if d.var == v]
+                if defs_in_body and all(d.kind == "mutate" and isinstance(d.node.ast, ast.Assign) and isinstance(d.node.ast.targets[0], ast.Subscript)
+                                        for d in defs_in_body):
+                    allowed.add(v)
         bad = sorted(carried - allowed)
         ctx.ob("R-GITIGNORE-G6", f"{walk.qual} :: nothing is carried from one directory to the next", not bad,
                "the .gitignore chain (and every other filter) that applies to a directory must be derived from that directory: a list kept "
